@@ -207,10 +207,30 @@ def replay_gen(payload):
                  matches_known_loose_contraction=(e2 == (oprem <= loose and cprem <= oloose)))
     for p in payload["pairs"]:
         vn = var_names(p["nodes"], rng, "str")
-        g1, g2 = DAG(), DAG()
-        for g, es in ((g1, p["e1"]), (g2, p["e2"])):
-            g.add_nodes_from([vn[v] for v in shuffled(p["nodes"], rng)])
-            g.add_edges_from([(vn[u], vn[v]) for u, v in shuffled(es, rng)])
+        def construct(es):
+            """the same graph written down in one of several ways (the node attribute dictionaries networkx keeps differ between them)"""
+            from pgmpy.models import BayesianNetwork
+            el = [(vn[u], vn[v]) for u, v in shuffled(es, rng)]
+            style = rng.choice(["nodes_then_edges", "edge_list", "edge_list_bn_copy", "weights"])
+            if style == "nodes_then_edges":
+                g = DAG()
+                g.add_nodes_from([vn[v] for v in shuffled(p["nodes"], rng)])
+                g.add_edges_from(el)
+            elif style == "weights":
+                g = DAG()
+                for v in shuffled(p["nodes"], rng):
+                    g.add_node(vn[v], weight=rng.choice([None, 0.5, 2]))
+                for a, b in el:
+                    g.add_edge(a, b, weight=rng.choice([None, 1.5]))
+            else:
+                g = (BayesianNetwork if style == "edge_list_bn_copy" else DAG)(el)
+                for v in p["nodes"]:
+                    if vn[v] not in g.nodes():
+                        g.add_node(vn[v])
+                if style == "edge_list_bn_copy":
+                    g = g.copy()
+            return g
+        g1, g2 = construct(p["e1"]), construct(p["e2"])
         ncalls += 1
         got = bool(g1.is_iequivalent(g2))
         if got != p["equiv"]:
